@@ -4,9 +4,11 @@ open ProcStack
 
 /-
 line grammar (whitespace separated tokens):
-  scn <ntop> cls{ntop} <nclasses> class{nclasses} <ncbs> code{ncbs}     -- resets the state
+  scn <ntop> cls{ntop} <nclasses> class{nclasses} <ncbs> code{ncbs} [<nraise> cb{nraise}]    -- resets the state
   class := <nsteps> step{nsteps}        step := (N|W|F|R|B) code      code := <nacts> act{nacts}
-  act   := o | a | u | c<k> | l<k> | x<k> | i<k>         -- i: child of class k awaited inline; B: step ends with a BaseException
+  act   := o | a | u | c<k> | l<k> | x<k> | i<k> | p<k>  -- i: child of class k awaited inline; B: step ends with a BaseException
+                                                         -- p: callback k scheduled on the creator of the running process (if any)
+  the optional trailer lists the callbacks that end with `raise Boom()` (sample `h.callback_excepted` after their scope)
   tick <tid> | resume <tid> | kill <tid> | ext <pid> <cb>      -- ext: `pid.call_soon(cb)` from code outside any task
   cancel <tid>                                                 -- `task.cancel()` from code outside any task
 output, one line per input line:
@@ -24,6 +26,7 @@ def pAct (s : String) : Option Act :=
     else if s.startsWith "l" then k.map .launch
     else if s.startsWith "x" then k.map .execute
     else if s.startsWith "i" then k.map .inline
+    else if s.startsWith "p" then k.map .callSoonCreator
     else none
 
 def pCode : List String → Option (List Act × List String)
@@ -71,7 +74,13 @@ def pScn (toks : List String) : Option (Scenario × List Nat) :=
           match r' with
           | nb :: r'' => do
               let (cbs, r3) ← pCbs (← nb.toNat?) r'' []
-              if r3.isEmpty then some (⟨cls, cbs⟩, top) else none
+              match r3 with
+              | [] => some ({ classes := cls, cbs := cbs }, top)
+              | nr :: r4 => do
+                  let n ← nr.toNat?
+                  if r4.length ≠ n then none else
+                  let raising ← r4.mapM (·.toNat?)
+                  some ({ classes := cls, cbs := cbs, cbRaise := raising }, top)
           | [] => none
       | [] => none
   | [] => none
@@ -84,10 +93,11 @@ def hookName : Hook → String
   | .on_except => "on_except" | .on_excepted => "on_excepted" | .on_kill => "on_kill" | .on_killed => "on_killed"
   | .on_terminated => "on_terminated" | .on_close => "on_close"
   | .on_output_emitting => "on_output_emitting" | .on_output_emitted => "on_output_emitted"
+  | .callback_excepted => "callback_excepted"
 
 def kindName : Kind → String
   | .seg => "seg" | .aw => "aw" | .o => "o" | .cbseg => "cbseg" | .cbaw => "cbaw" | .lret => "lret"
-  | .xret => "xret" | .csret => "csret" | .uret => "uret" | .iret => "iret" | .absorbed => "absorbed" | .hook h => "h." ++ hookName h
+  | .xret => "xret" | .csret => "csret" | .pcret => "pcret" | .uret => "uret" | .iret => "iret" | .absorbed => "absorbed" | .hook h => "h." ++ hookName h
 
 def showCur : Option Pid → String
   | none => "-" | some p => toString p
